@@ -119,7 +119,7 @@ TTxEnd ==
                 /\ Chk("P4-added-removed-calls", Side(Ev.calls) = Side(Seen(fl.calls)))
     /\ TxEnd
     /\ Chk("P11-charged-fee-consumes-the-payers-sequence-number",
-           \A a \in conf.accts : Ev.st.fee[a] > fl.S0.fee[a] => Ev.st.seq[a] > fl.S0.seq[a])
+           FeeWithoutSequence \/ \A a \in conf.accts : Ev.st.fee[a] > fl.S0.fee[a] => Ev.st.seq[a] > fl.S0.seq[a])
     /\ Matches(Ev.st)
     /\ l' = l + 1
 
